@@ -15,8 +15,10 @@
 package dispatcher
 
 import (
+	"bufio"
 	"context"
 	"fmt"
+	"net"
 	"net/http"
 	"net/url"
 	"strings"
@@ -24,6 +26,7 @@ import (
 	"github.com/gobeam/stringy"
 	"k8s.io/apimachinery/pkg/api/errors"
 	"k8s.io/apimachinery/pkg/runtime/serializer"
+	"k8s.io/apimachinery/pkg/util/httpstream"
 	utilnet "k8s.io/apimachinery/pkg/util/net"
 	"k8s.io/apiserver/pkg/endpoints/filters"
 	genericapirequest "k8s.io/apiserver/pkg/endpoints/request"
@@ -163,7 +166,42 @@ func (d *dispatcher) ServeHTTP(w http.ResponseWriter, req *http.Request) {
 	responder := newErrorResponder(d.codecs, endpoint, requestInfo, extraInfo.ReaderWriter)
 
 	proxyHandler := NewUpgradeAwareHandler(location, endpoint.ProxyTransport, endpoint.PorxyUpgradeTransport, false, false, responder)
+	if httpstream.IsUpgradeRequest(req) {
+		// an upgraded connection (exec, attach, port-forward) is hijacked and copied until one side closes it;
+		// nothing on that path watches the request context, so close the connection when the context ends
+		// (endpoint removed, cluster deleted)
+		w = &closeOnDoneHijacker{ResponseWriter: w, done: newReq.Context().Done()}
+	}
 	proxyHandler.ServeHTTP(w, newReq)
+}
+
+// closeOnDoneHijacker closes a hijacked connection when done is closed.
+type closeOnDoneHijacker struct {
+	http.ResponseWriter
+	done <-chan struct{}
+}
+
+func (h *closeOnDoneHijacker) Hijack() (net.Conn, *bufio.ReadWriter, error) {
+	hijacker, ok := h.ResponseWriter.(http.Hijacker)
+	if !ok {
+		return nil, nil, fmt.Errorf("response writer %T does not support hijacking", h.ResponseWriter)
+	}
+	conn, rw, err := hijacker.Hijack()
+	if err != nil {
+		return conn, rw, err
+	}
+	go func() {
+		// the request context also ends when ServeHTTP returns, so this goroutine does not outlive the request
+		<-h.done
+		conn.Close()
+	}()
+	return conn, rw, nil
+}
+
+func (h *closeOnDoneHijacker) Flush() {
+	if f, ok := h.ResponseWriter.(http.Flusher); ok {
+		f.Flush()
+	}
 }
 
 func (d *dispatcher) responseError(err *errors.StatusError, w http.ResponseWriter, req *http.Request, reason string) {
